@@ -1,7 +1,376 @@
-import IV.Model.Playbook
-namespace IV.Playbook
+import IV.Lemmas.Playbook
+import IV.Lemmas.PlaybookVerify
+/-!
+C18 — a playbook's signed digest covers everything but the declared dynamic parts.
 
-theorem stub_exclude_missing (p : Play) (h : lookupStr sVars p = none) : exclude p = .error .verr := by
-  simp [exclude, exclList, h]
+Every theorem is about `IV.Playbook` (Model/Playbook.lean): `ser` = PlaybookSerializer, `exclude` =
+exclude_dynamic_elements, `verifyPlay` / `verifyPlayFull` = verify_play (+ execute_verification),
+`verify` = verify.  All values: strings over every character, unbounded integers, booleans, null,
+sequences and mappings with scalar keys, nested to any depth.  SHA-256 is the parameter `H`
+(assumed injective where a theorem speaks of digests), GPG the parameter `sigValid`.
+-/
+namespace IV.Playbook.C18
+open IV.Playbook
 
-end IV.Playbook
+/-! ### 1. the signed text determines the play: values, keys, order, nesting, types -/
+
+/-- the decoder reads back exactly the value that was serialised, whatever follows it
+(`Safe rest`: the rest does not continue a number) -/
+theorem decode_ser (v : PVal) (rest : Str) (hs : Safe rest) : decode (ser v ++ rest) = some (v, rest) :=
+  Playbook.decode_ser v rest hs
+
+example : Safe [',', ' ', 'x'] := safe_comma _
+
+/-- the serializer is injective on all values -/
+theorem ser_injective (p q : PVal) (h : ser p = ser q) : p = q := Playbook.ser_injective p q h
+
+/-- stronger: a serialisation is never a prefix of another one -/
+theorem ser_prefix_free (p q : PVal) (r1 r2 : Str) (h1 : Safe r1) (h2 : Safe r2)
+    (h : ser p ++ r1 = ser q ++ r2) : p = q ∧ r1 = r2 := Playbook.ser_prefix_free p q r1 r2 h1 h2 h
+
+/-- two plays with the same signed text are the same play -/
+theorem serializePlay_injective (p q : Play) (h : serializePlay p = serializePlay q) : p = q := by
+  have := Playbook.ser_injective _ _ h
+  injection this
+
+/-- regression of the repaired defect (fix 4738ca0): a key that spells an entry boundary, and an
+integer / boolean / null key against the string of the same spelling, no longer collide -/
+theorem rawkey_witnesses_distinct (x y : PVal) :
+    ser (.map [(.str "a', 'x'), ('b".toList, y)]) ≠ ser (.map [(.str ['a'], .sc (.str ['x'])), (.str ['b'], y)]) ∧
+    ser (.map [(.int 1, x)]) ≠ ser (.map [(.str ['1'], x)]) ∧
+    ser (.map [(.bool true, x)]) ≠ ser (.map [(.str ['T', 'r', 'u', 'e'], x)]) ∧
+    ser (.map [(.none, x)]) ≠ ser (.map [(.str ['N', 'o', 'n', 'e'], x)]) := by
+  refine ⟨?_, ?_, ?_, ?_⟩ <;> intro h <;> have h := Playbook.ser_injective _ _ h <;> simp at h
+
+example : ser (.map [(.int 1, .sc (.str ['x']))]) = "ordereddict([(1, 'x')])".toList := by decide
+example : ser (.map [(.str ['1'], .sc (.str ['x']))]) = "ordereddict([('1', 'x')])".toList := by decide
+
+/-- the digest that GPG is shown differs whenever the plays differ outside the excluded elements
+(`H` = SHA-256 ∘ UTF-8, assumed collision free) -/
+theorem digest_changes {D : Type} (H : Str → D) (hH : ∀ a b, H a = H b → a = b)
+    (p q p' q' : Play) (_hp : exclude p = .ok p') (_hq : exclude q = .ok q') (hne : p' ≠ q') :
+    H (serializePlay p') ≠ H (serializePlay q') := by
+  intro h; exact hne (serializePlay_injective _ _ (hH _ _ h))
+
+/-- what a successful `verify_play` hands to GPG is the serialisation of the cleaned play -/
+theorem verifyPlay_ok (p : Play) (t : Str) (s : PVal) (h : verifyPlay p = .ok (t, s)) :
+    ∃ c, exclude p = .ok c ∧ t = serializePlay c := by
+  unfold verifyPlay at h
+  split at h
+  · split at h
+    · cases h
+    · cases h
+    · split at h
+      · rename_i c hc; injection h with h; injection h with h1 _; exact ⟨c, hc, h1.symm⟩
+      · cases h
+  · cases h
+
+/-- … and through `verify_play`: equal digests shown to GPG ⇒ equal plays after exclusion -/
+theorem verifyPlay_digest_binds {D : Type} (H : Str → D) (hH : ∀ a b, H a = H b → a = b)
+    (p q : Play) (tp tq : Str) (sp sq : PVal) (hp : verifyPlay p = .ok (tp, sp)) (hq : verifyPlay q = .ok (tq, sq))
+    (h : H tp = H tq) : exclude p = exclude q := by
+  have ht := hH _ _ h
+  obtain ⟨cp, hcp, e1⟩ := verifyPlay_ok p tp sp hp
+  obtain ⟨cq, hcq, e2⟩ := verifyPlay_ok q tq sq hq
+  rw [hcp, hcq, serializePlay_injective cp cq (by rw [← e1, ← e2, ht])]
+
+/-! ### 2. what exclusion may remove -/
+
+/-- a successful exclusion changed the play only by deleting `hosts` / `vars` entries or direct
+children of a `hosts` / `vars` mapping; every other entry is identical and in the same place -/
+theorem exclude_only_dynamic (p p' : Play) (h : exclude p = .ok p') : Shrunk p p' := by
+  unfold exclude at h
+  split at h
+  · cases h
+  · cases h
+  · exact exclLoop_shrunk _ p p p' (Shrunk.refl p) h
+
+/-- every request of a successful exclusion is `hosts`, `vars` or `hosts/x`, `vars/x` -/
+theorem exclude_requests_valid (p p' : Play) (e : Str) (hl : exclList p = .text e) (h : exclude p = .ok p') :
+    ∀ el ∈ splitOn ',' e, ValidPath (pathOf el) := by
+  unfold exclude at h
+  rw [hl] at h
+  exact exclLoop_ok_valid _ p p' h
+
+/-- only excluded elements changed ⇒ same result, same digest: replacing the value of a top-level
+element that the (unchanged) exclusion list removes as a whole -/
+theorem digest_ignores_excluded (p : Play) (a : Str) (w : PVal) (e : Str) (r r' : Play)
+    (hl : exclList p = .text e) (hl' : exclList (setStr a w p) = .text e)
+    (hreq : ∃ el ∈ splitOn ',' e, pathOf el = [a])
+    (hp : exclude p = .ok r) (hq : exclude (setStr a w p) = .ok r') :
+    r' = r ∧ serializePlay r' = serializePlay r := by
+  unfold exclude at hp hq
+  rw [hl] at hp; rw [hl'] at hq
+  have := exclLoop_sameBut a _ p (setStr a w p) r r' (Or.inr ⟨w, rfl⟩) hp hq hreq
+  exact ⟨this, by rw [this]⟩
+
+/-- the same for a direct child `a/b` of `hosts` / `vars` that the (unchanged) list excludes -/
+theorem digest_ignores_excluded_child (p : Play) (a b : Str) (vs : List (Scalar × PVal)) (w : PVal) (e : Str)
+    (r r' : Play) (hlk : lookupStr a p = some (.map vs))
+    (hl : exclList p = .text e) (hl' : exclList (setStr a (.map (setStr b w vs)) p) = .text e)
+    (hreq : ∃ el ∈ splitOn ',' e, pathOf el = [a, b])
+    (hp : exclude p = .ok r) (hq : exclude (setStr a (.map (setStr b w vs)) p) = .ok r') :
+    r' = r ∧ serializePlay r' = serializePlay r := by
+  unfold exclude at hp hq
+  rw [hl] at hp; rw [hl'] at hq
+  have := exclLoop_sameButChild a b _ p _ r r' (Or.inr ⟨vs, w, hlk, rfl⟩) hp hq hreq
+  exact ⟨this, by rw [this]⟩
+
+/-! ### 3. error clauses -/
+
+/-- no `vars`, or a `vars` mapping without the exclusion list: verification error -/
+theorem exclude_missing_list_error (p : Play) (h : exclList p = .missing) : exclude p = .error .verr := by
+  simp [exclude, h]
+
+theorem exclList_missing_of_no_vars (p : Play) (h : lookupStr sVars p = none) : exclList p = .missing := by
+  simp [exclList, h]
+
+theorem exclList_missing_of_no_key (p : Play) (vs : List (Scalar × PVal)) (h : lookupStr sVars p = some (.map vs))
+    (h2 : lookupStr sExclude vs = none) : exclList p = .missing := by
+  simp [exclList, h, h2]
+
+/-- any request other than `hosts` / `vars` / a direct child of them: verification error -/
+theorem exclude_invalid_request_error (p : Play) (e : Str) (hl : exclList p = .text e)
+    (hbad : ∃ el ∈ splitOn ',' e, ¬ ValidPath (pathOf el)) : exclude p = .error .verr := by
+  cases h : exclude p with
+  | ok p' =>
+    obtain ⟨el, hel, hb⟩ := hbad
+    exact absurd (exclude_requests_valid p p' e hl h el hel) hb
+  | error x =>
+    unfold exclude at h
+    rw [hl] at h
+    rw [exclLoop_error _ p x h]
+
+/-- with a usable (string) exclusion list, exclusion never fails with anything but a verification error -/
+theorem exclude_error_is_verr (p : Play) (e : Str) (x : Err) (hl : exclList p = .text e) (h : exclude p = .error x) :
+    x = .verr := by
+  unfold exclude at h
+  rw [hl] at h
+  exact exclLoop_error _ p x h
+
+/-- missing signature (no `vars` mapping, no `insights_signature`, or a null one): verification error -/
+theorem missing_signature_error (p : Play)
+    (h : (∀ vs, lookupStr sVars p ≠ some (.map vs)) ∨
+         (∃ vs, lookupStr sVars p = some (.map vs) ∧
+            (lookupStr sSignature vs = none ∨ lookupStr sSignature vs = some (.sc .none)))) :
+    verifyPlay p = .error .verr := by
+  unfold verifyPlay
+  rcases h with h | ⟨vs, hv, hs⟩
+  · split
+    · rename_i vs' hv; exact absurd hv (h vs')
+    · rfl
+  · rw [hv]
+    rcases hs with hs | hs <;> simp [hs]
+
+/-- FULL STATEMENT (false of the current code): every failure of `verify_play`'s checks is a
+verification error -/
+def VerifyPlayFailsOnlyWithVerificationError : Prop :=
+  ∀ p : Play, ∀ x, verifyPlay p = .error x → x = .verr
+
+/-- what holds: the only other failure is an exclusion list that is present but not a string -/
+theorem verifyPlay_error_partial (p : Play) (h : verifyPlay p = .error .crash) :
+    ∃ vs v, lookupStr sVars p = some (.map vs) ∧ lookupStr sExclude vs = some v ∧ ∀ e, v ≠ .sc (.str e) := by
+  unfold verifyPlay at h
+  split at h
+  · rename_i vs hv
+    split at h
+    · cases h
+    · cases h
+    · split at h
+      · cases h
+      · rename_i x hx
+        injection h with h; subst h
+        unfold exclude at hx
+        split at hx
+        · cases hx
+        · rename_i hl
+          unfold exclList at hl
+          rw [hv] at hl
+          simp only at hl
+          split at hl
+          · cases hl
+          · cases hl
+          · rename_i v hne hlk
+            exact ⟨vs, v, hv, hlk, fun e he => hne e he⟩
+        · rename_i e hl
+          have := exclLoop_error _ p _ hx
+          cases this
+  · cases h
+
+def isCrash {α : Type} : Except Err α → Bool
+  | .error .crash => true
+  | _ => false
+
+/-- the witness of known finding `nonstring-exclusion-list` (replayed against the implementation) -/
+def nonstringWitness : Play :=
+  [(.str ['n', 'a', 'm', 'e'], .sc (.str ['w'])), (.str sHosts, .sc (.str ['a', 'l', 'l'])),
+   (.str sVars, .map [(.str sExclude, .sc .none), (.str sSignature, .sc (.str ['U', 'E', 'x', 'B']))])]
+
+theorem verifyPlay_error_witness : ¬ VerifyPlayFailsOnlyWithVerificationError := by
+  intro h
+  have hc : isCrash (verifyPlay nonstringWitness) = true := by decide
+  cases hv : verifyPlay nonstringWitness with
+  | ok r => rw [hv] at hc; cases hc
+  | error x =>
+    have := h nonstringWitness x hv
+    subst this
+    rw [hv] at hc; cases hc
+
+/-! ### 4. verify(): acceptance, signature binding, revocation -/
+
+section
+variable {D : Type} [DecidableEq D]
+variable (H : Str → D) (sigDecodes : PVal → Bool) (sigValid : D → PVal → Bool) (hashOf : PVal → Option D)
+
+theorem revokedLoop_ok (d : D) : ∀ items : List PVal, revokedLoop hashOf d items = .ok () →
+    ∀ it ∈ items, ∃ h, hashOf it = some h ∧ h ≠ d
+  | [], _, it, hit => by simp at hit
+  | i0 :: r, hl, it, hit => by
+    simp only [revokedLoop] at hl
+    cases hh : hashOf i0 with
+    | none => rw [hh] at hl; cases hl
+    | some h0 =>
+      rw [hh] at hl
+      simp only at hl
+      split at hl
+      · cases hl
+      · rename_i hne
+        rcases List.mem_cons.mp hit with rfl | hit
+        · exact ⟨h0, hh, fun e => hne e.symm⟩
+        · exact revokedLoop_ok d r hl it hit
+
+/-- what an accepted play satisfies: it is not empty, the revocation list verified, the play has a
+signature, its exclusion succeeded, GPG accepted the signature for the digest of the cleaned play,
+and no revocation entry carries that digest -/
+theorem verify_accepts (rplay p : Play) (h : verify H sigDecodes sigValid hashOf rplay p = .ok ()) :
+    p ≠ [] ∧ ∃ items text sig cleaned,
+      revocationList H sigDecodes sigValid rplay = .ok (some items) ∧
+      verifyPlay p = .ok (text, sig) ∧ exclude p = .ok cleaned ∧ text = serializePlay cleaned ∧
+      sigValid (H text) sig = true ∧
+      ∀ it ∈ items, ∃ d, hashOf it = some d ∧ d ≠ H text := by
+  unfold verify at h
+  split at h
+  · cases h
+  · rename_i hne
+    refine ⟨fun e => hne (by rw [e]; rfl), ?_⟩
+    split at h
+    · cases h
+    · rename_i revoked hrev
+      split at h
+      · cases h
+      · rename_i valid d hvp
+        split at h
+        · rename_i hvalid
+          split at h
+          · rename_i items
+            unfold verifyPlayFull at hvp
+            split at hvp
+            · cases hvp
+            · rename_i text sig hv
+              split at hvp
+              · injection hvp with hvp; injection hvp with h1 h2
+                subst h1; subst h2
+                obtain ⟨cleaned, hcl, ht⟩ := verifyPlay_ok p text sig hv
+                exact ⟨items, text, sig, cleaned, hrev, hv, hcl, ht, hvalid,
+                  revokedLoop_ok hashOf _ items h⟩
+              · cases hvp
+          · cases h
+        · cases h
+
+/-- a play whose digest is on the revocation list is never accepted -/
+theorem revoked_rejected (rplay p : Play) (items : List PVal) (text : Str) (sig : PVal)
+    (hrev : revocationList H sigDecodes sigValid rplay = .ok (some items))
+    (hv : verifyPlay p = .ok (text, sig)) (hon : ∃ it ∈ items, hashOf it = some (H text)) :
+    verify H sigDecodes sigValid hashOf rplay p ≠ .ok () := by
+  intro h
+  obtain ⟨_, items', text', sig', cleaned, hrev', hv', _, _, _, hall⟩ := verify_accepts H sigDecodes sigValid hashOf rplay p h
+  rw [hrev] at hrev'; injection hrev' with e; injection e with e; subst e
+  rw [hv] at hv'; injection hv' with e; injection e with e1 e2; subst e1
+  obtain ⟨it, hit, hh⟩ := hon
+  obtain ⟨d, hd, hne⟩ := hall it hit
+  rw [hh] at hd; injection hd with hd; exact hne hd.symm
+
+/-- a play without a signature is never accepted -/
+theorem unsigned_rejected (rplay p : Play)
+    (hs : (∀ vs, lookupStr sVars p ≠ some (.map vs)) ∨
+          (∃ vs, lookupStr sVars p = some (.map vs) ∧
+             (lookupStr sSignature vs = none ∨ lookupStr sSignature vs = some (.sc .none)))) :
+    verify H sigDecodes sigValid hashOf rplay p ≠ .ok () := by
+  intro h
+  obtain ⟨_, _, text, sig, _, _, hv, _⟩ := verify_accepts H sigDecodes sigValid hashOf rplay p h
+  rw [missing_signature_error p hs] at hv; cases hv
+
+/-- a play with a missing or invalid exclusion request is never accepted -/
+theorem bad_exclusion_rejected (rplay p : Play)
+    (hb : exclList p = .missing ∨ ∃ e, exclList p = .text e ∧ ∃ el ∈ splitOn ',' e, ¬ ValidPath (pathOf el)) :
+    verify H sigDecodes sigValid hashOf rplay p ≠ .ok () := by
+  intro h
+  obtain ⟨_, _, _, _, cleaned, _, _, hcl, _⟩ := verify_accepts H sigDecodes sigValid hashOf rplay p h
+  rcases hb with hm | ⟨e, hl, hbad⟩
+  · rw [exclude_missing_list_error p hm] at hcl; cases hcl
+  · rw [exclude_invalid_request_error p e hl hbad] at hcl; cases hcl
+
+/-- THE PROPERTY, end to end: if two plays are both accepted with signatures that GPG ties to one
+digest each (`sigValid` functional in the digest, SHA-256 collision free) and they carry the same
+signature value, they are the same play outside the excluded elements -/
+theorem signature_binds_core (hH : ∀ a b, H a = H b → a = b)
+    (hsig : ∀ d d' s, sigValid d s = true → sigValid d' s = true → d = d')
+    (rplay p q : Play) (sig : PVal) (tp tq : Str)
+    (hp : verify H sigDecodes sigValid hashOf rplay p = .ok ())
+    (hq : verify H sigDecodes sigValid hashOf rplay q = .ok ())
+    (hsp : verifyPlay p = .ok (tp, sig)) (hsq : verifyPlay q = .ok (tq, sig)) :
+    exclude p = exclude q := by
+  obtain ⟨_, _, t1, s1, _, _, hv1, _, _, hval1, _⟩ := verify_accepts H sigDecodes sigValid hashOf rplay p hp
+  obtain ⟨_, _, t2, s2, _, _, hv2, _, _, hval2, _⟩ := verify_accepts H sigDecodes sigValid hashOf rplay q hq
+  rw [hsp] at hv1; injection hv1 with e; injection e with e1 e2; subst e1; subst e2
+  rw [hsq] at hv2; injection hv2 with e; injection e with e1 e2; subst e1; subst e2
+  exact verifyPlay_digest_binds H hH p q tp tq sig sig hsp hsq (hsig _ _ _ hval1 hval2)
+
+end
+
+/-! ### non-vacuity: concrete plays go through exclusion and the presence checks -/
+
+def isOk {α : Type} : Except Err α → Bool
+  | .ok _ => true
+  | _ => false
+
+def okText {α : Type} (f : α → Str) : Except Err α → Str
+  | .ok a => f a
+  | .error _ => []
+
+def demoPlay : Play :=
+  [(.str ['n', 'a', 'm', 'e'], .sc (.str ['d'])), (.str sHosts, .sc (.str ['a', 'l', 'l'])),
+   (.str sVars, .map [(.str sExclude, .sc (.str "/hosts,/vars/insights_signature".toList)),
+                      (.str sSignature, .sc (.str ['U', 'E', 'x', 'B']))]),
+   (.int 1, .seq [.sc (.bool true), .sc .none, .sc (.int (-5))])]
+
+def tiny : Play :=
+  [(.str sHosts, .sc (.str ['a'])),
+   (.str sVars, .map [(.str sExclude, .sc (.str ['/', 'h', 'o', 's', 't', 's'])), (.str sSignature, .sc (.str ['U']))]),
+   (.int 1, .seq [.sc .none])]
+
+example : isOk (exclude demoPlay) = true := by decide
+example : isOk (verifyPlay demoPlay) = true := by decide
+example : okText serializePlay (exclude tiny) =
+    serializePlay [(.str sVars, .map [(.str sExclude, .sc (.str ['/', 'h', 'o', 's', 't', 's'])), (.str sSignature, .sc (.str ['U']))]),
+                   (.int 1, .seq [.sc .none])] := by decide
+example : (okText serializePlay (exclude tiny)).take 22 = "ordereddict([('vars', ".toList := by decide
+example : okText (·.1) (verifyPlay tiny) = okText serializePlay (exclude tiny) := by decide
+/- hypotheses of `digest_ignores_excluded` are met by `tiny` with a = "hosts" -/
+example : ∃ el ∈ splitOn ',' ['/', 'h', 'o', 's', 't', 's'], pathOf el = [sHosts] := ⟨_, List.mem_singleton.mpr rfl, by decide⟩
+example : isOk (exclude (setStr sHosts (.seq [.sc (.int 7)]) tiny)) = true := by decide
+/- hypotheses of `digest_ignores_excluded_child` are met by `demoPlay` with a/b = vars/insights_signature -/
+example : isOk (exclude (setStr sVars (.map (setStr sSignature (.sc (.int 0))
+    [(.str sExclude, .sc (.str "/hosts,/vars/insights_signature".toList)), (.str sSignature, .sc (.str ['U', 'E', 'x', 'B']))])) demoPlay)) = true := by
+  decide
+/- hypotheses of `exclude_invalid_request_error`: "/name" is not a valid request -/
+example : ¬ ValidPath (pathOf ['/', 'n', 'a', 'm', 'e']) := by
+  intro h
+  rcases h with ⟨a, h1, h2⟩ | ⟨a, b, h1, _⟩
+  · have e : pathOf ['/', 'n', 'a', 'm', 'e'] = [['n', 'a', 'm', 'e']] := by decide
+    rw [e] at h1; injection h1 with h1; subst h1; revert h2; decide
+  · have e : pathOf ['/', 'n', 'a', 'm', 'e'] = [['n', 'a', 'm', 'e']] := by decide
+    rw [e] at h1; simp at h1
+example : isCrash (exclude nonstringWitness) = true := by decide
+
+end IV.Playbook.C18
